@@ -96,6 +96,7 @@ def oracle(case, obs, raw):
     cur = {}                # target -> dict(body, pipe, alive)
     aio_of = {}             # aio -> target
     pend = {}               # target -> pending recv aio
+    tx_seen = {}            # pipe -> tx string last observed
     for k, line in enumerate(case):
         t = line.split()
         o = obs[k]
@@ -146,11 +147,15 @@ def oracle(case, obs, raw):
                 cur[tg] = None      # whatever it was, the state machine may have been aborted
         for i, p in o["pipes"].items():
             tx = p.get("tx")
-            if tx:
-                b = tx.split("/")[1]
-                for rec in cur.values():
-                    if rec is not None and rec["body"] == b:
-                        rec["pipe"] = i; rec["rid"] = tx.split("/")[0]
+            if tx != tx_seen.get(i):
+                # a new hand-over to the transport: the request is now "last written" to this pipe (a copy still
+                # pending on an older pipe does not count)
+                tx_seen[i] = tx
+                if tx:
+                    b = tx.split("/")[1]
+                    for rec in cur.values():
+                        if rec is not None and rec["body"] == b:
+                            rec["pipe"] = i; rec["rid"] = tx.split("/")[0]
         if op == "inject" and o["rv"] == 0:
             # a reply carrying the request's id answers it (delivered or stashed): no longer outstanding
             for tg, rec in cur.items():
